@@ -28,9 +28,15 @@ class OtherShard(Exception):
     """The path belongs to another shard of a harness that is explored by several processes."""
 
 
+_VALID_MEMO = {}    # (ids of the pc terms, id of the goal) -> (backend, pc, goal) for proved obligations (terms kept alive)
+_SEQFREE = {}       # AST id -> "has no sequence-sorted sub-term" (process-wide memo of PathCtx.seq_free)
+_SEQFREE_KEEP = []  # references to the memoised ASTs (z3 may recycle the id of a freed AST)
+
+
 class Config:
     def __init__(self, **kw):
         self.branch_timeout_ms = kw.get("branch_timeout_ms", 4000)
+        self.branch_probe_ms = kw.get("branch_probe_ms", 1500)  # full-solver pruning probe at a fork the LIA abstraction leaves open
         self.check_timeout_ms = kw.get("check_timeout_ms", 10000)
         self.max_paths = kw.get("max_paths", 4000)
         self.max_decisions = kw.get("max_decisions", 3000)
@@ -76,7 +82,7 @@ class PathCtx:
         self.solver.set("timeout", cfg.branch_timeout_ms)
         self.lia = z3.Solver()  # abstraction: only the assertions free of sequence terms
         self.lia.set("timeout", 2000)
-        self._seqfree = {}
+        self._seqfree = _SEQFREE  # shared by all paths; the classified terms are kept alive so that AST ids stay valid
         self.pc = []
         self.counter = 0
         self.inputs = []  # (name, kind, payload)
@@ -134,16 +140,22 @@ class PathCtx:
     def seq_free(self, t):
         """True if no sub-term of t has a sequence or real sort (such assertions form the LIA abstraction)."""
         cache = self._seqfree
+        if t.get_id() in cache:
+            return cache[t.get_id()]
         stack = [t]
         order = []
+        seen = set()  # shared sub-terms are visited once (terms are DAGs)
         while stack:
             e = stack.pop()
             i = e.get_id()
-            if i in cache:
+            if i in cache or i in seen:
                 continue
+            seen.add(i)
             order.append(e)
+            _SEQFREE_KEEP.append(e)
             for c in e.children():
-                if c.get_id() not in cache:
+                ci = c.get_id()
+                if ci not in cache and ci not in seen:
                     stack.append(c)
         for e in reversed(order):
             i = e.get_id()
@@ -220,7 +232,7 @@ class PathCtx:
         can_t = not self._lia_unsat(term)
         can_f = can_t and not self._lia_unsat(nterm)
         if can_t and can_f:
-            self._cur_timeout = min(self.cfg.branch_timeout_ms, self.cfg.feas_timeout_ms)
+            self._cur_timeout = min(self.cfg.branch_timeout_ms, self.cfg.feas_timeout_ms, self.cfg.branch_probe_ms)
             self.solver.set("timeout", self._cur_timeout)
             r_f = self._check(nterm)
             can_f = r_f != z3.unsat
@@ -300,7 +312,16 @@ class PathCtx:
             goal = z3.BoolVal(False)
         else:
             goal = term
+        # paths that share a prefix reach the same clause under the same path condition: a proved (pc => goal) is reused.
+        # Only "valid" verdicts are memoised; the key is the identity of the z3 terms (kept alive in the memo).
+        key = (tuple(a.get_id() for a in self.pc), goal.get_id())
+        hit = _VALID_MEMO.get(key)
+        if hit is not None:
+            self.obls.append(Obl(label, "discharged", backend=hit[0], secs=0.0, path=list(self.decisions), kind=kind))
+            return True
         res = solve.check_valid(self.pc, goal, self.cfg, inputs=self.inputs)
+        if res.status == "unsat":
+            _VALID_MEMO[key] = (res.backend, list(self.pc), goal)
         secs = time.time() - t0
         self.solver_secs += secs
         self.solver_calls += 1
